@@ -1073,6 +1073,18 @@ func pgStrCorpus() []*pgProgram {
 		mk(pgNList(pgNTry(m(s(), "contains", n()), pgNInt(-1)), pgNTry(m(s(), "cut", str("1"), n()), pgNInt(-2)), pgNTry(m(s(), "cut", n(), str("1")), pgNInt(-3)),
 			pgNTry(m(s(), "replace", str("a")), pgNInt(-4)), pgNTry(m(s(), "trim", n()), pgNInt(-5)), pgNTry(m(s(), "split", pgNList()), pgNInt(-6)),
 			pgNTry(m(s(), "replace", str("a"), n()), pgNInt(-7)), pgNTry(m(s(), "indexOf"), pgNInt(-8)), pgNTry(m(n(), "trim"), pgNInt(-9)))),
+		// visit / eval / set / closure.args (argument s unused)
+		mk(pgNList(m(pgNList(pgNInt(1), n(), pgNInt(3)), "visit", pgNInt(7), pgNClo([]string{"a", "b"}, pgNOp("-", pgNOp("*", pgNId("a"), pgNInt(3)), pgNId("b")))),
+			m(pgNList(), "visit", n(), pgNClo([]string{"a", "b"}, pgNId("b"))),
+			pgNTry(m(pgNList(pgNInt(1)), "visit", n(), pgNClo([]string{"a"}, pgNId("a"))), pgNInt(-1)),
+			pgNTry(m(pgNList(pgNInt(1)), "visit", n(), n()), pgNInt(-2)))),
+		mk(pgNList(m(pgNList(pgNInt(1), n(), pgNInt(3)), "set", pgNInt(0), s()), m(pgNList(pgNInt(1), n(), pgNInt(3)), "set", pgNInt(2), pgNInt(9)),
+			pgNTry(m(pgNList(pgNInt(1), n()), "set", pgNInt(2), pgNInt(9)), pgNInt(-1)), pgNTry(m(pgNList(pgNInt(1), n()), "set", pgNInt(-1), pgNInt(9)), pgNInt(-2)),
+			pgNTry(m(pgNList(pgNInt(1), n()), "set", n(), pgNInt(9)), pgNInt(-3)), pgNTry(m(pgNList(pgNInt(1)), "set", s(), pgNInt(9)), pgNInt(-4)),
+			pgNTry(m(pgNList(), "set", pgNInt(0), pgNInt(9)), pgNInt(-5)), m(m(pgNList(pgNInt(1), n()), "map", pgNClo([]string{"e"}, pgNOp("*", pgNId("e"), pgNInt(2)))), "eval"),
+			m(pgNList(), "eval"))),
+		mk(pgNList(m(pgNClo([]string{"a"}, pgNId("a")), "args"), m(pgNClo([]string{"a", "b", "c"}, n()), "args"),
+			m(pgNClo([]string{"a", "b"}, pgNOp("+", pgNId("a"), n())), "args"), pgNTry(m(pgNClo([]string{"a"}, pgNId("a")), "args", n()), pgNInt(-1)))),
 		// results flow on: a split list through list methods, indexOf into cut
 		mk(m(m(m(s(), "split", str(",")), "map", pgNClo([]string{"p"}, m(m(pgNId("p"), "trim"), "toUpper"))), "reverse")),
 		mk(m(s(), "cut", pgNOp("+", m(s(), "indexOf", str(",")), pgNInt(1)), m(m(s(), "split", str(",")), "size"))),
@@ -1819,6 +1831,11 @@ func (g *pgProgGen) typed(t *pgTy, e *pgGenv, size int, allowLet bool) *pgNode {
 		case c < 80:
 			return pgNMethod("method", g.expr(pgTList(g.scalarType()), e, size-1, false), "size")
 		case c < 83:
+			if g.chance(0.4) {
+				k := 1 + g.pick(3)
+				at := []*pgTy{pgTInt, pgTInt, pgTInt}[:k]
+				return pgNMethod("method", g.expr(pgTFun(pgTInt, at...), e, size-1, false), "args")
+			}
 			return pgNMethod("method", g.expr(pgTStr, e, size-1, false), "len")
 		case c < 87:
 			return pgNMethod("method", g.expr(pgTList(pgTInt), e, size-1, false), "sum")
@@ -1834,6 +1851,9 @@ func (g *pgProgGen) typed(t *pgTy, e *pgGenv, size int, allowLet bool) *pgNode {
 			init := g.expr(pgTInt, e, p[2], true)
 			if p[2] >= 3 && g.chance(0.4) {
 				init = g.binder(pgTInt, e, p[2])
+			}
+			if g.chance(0.35) {
+				return pgNMethod("method", l, "visit", init, cb) // List.Visit: the loop of mapReduce
 			}
 			return pgNMethod("method", l, "mapReduce", init, cb)
 		case c < 94:
@@ -1988,9 +2008,12 @@ func (g *pgProgGen) typed(t *pgTy, e *pgGenv, size int, allowLet bool) *pgNode {
 			if p[1] >= 3 && g.chance(0.4) {
 				x = g.binder(t.Elem, e, p[1])
 			}
+			if g.chance(0.3) {
+				return pgNMethod("method", g.expr(t, e, p[0], false), "set", pgNInt(int64(g.pick(4)-1)), x) // out of range at times
+			}
 			return pgNMethod("method", g.expr(t, e, p[0], false), "append", x)
 		case c < 82:
-			return pgNMethod("method", g.expr(t, e, size-1, false), "reverse")
+			return pgNMethod("method", g.expr(t, e, size-1, false), g.oneOf([]string{"reverse", "reverse", "eval"}))
 		case c < 92:
 			p := g.split(size-1, 2)
 			return pgNOp("+", g.expr(t, e, p[0], false), g.expr(t, e, p[1], false))
